@@ -180,6 +180,72 @@ def _read_calls(f, tt, sd):
     return out
 
 
+def _block_reader(m, f, tt, sd, res, disp):
+    """A loader that fills a buffer with one raw stream.read and takes the number of complete values from gcount():
+    every element of the buffer that is used must lie below that count.  Returns True when the shape was recognised
+    (and judged), False otherwise."""
+    from .rules_wl import implied
+    raw = [n for n in f.nodes if n['k'] == 'CXXMemberCallExpr' and 'callee' in n and f.unit.decl(n['callee'])['name'] == 'read' and
+           tt.t(n.get('obj', -1)) == ('var', sd)]
+    if len(raw) != 1:
+        return False
+    B = None
+    for st in subterms(tt.t(raw[0]['args'][0])):
+        if st[0] == 'mcall' and st[1].endswith('::data') and st[2][0] == 'var':
+            B = st[2]
+    N = None
+    for n in f.nodes:
+        if n['k'] == 'DeclStmt':
+            for ix, d in enumerate(n['decls']):
+                if ix < len(n['c']) and n['c'][ix] >= 0 and any(
+                        st[0] == 'mcall' and st[1].endswith('::gcount') and st[2] == ('var', sd) for st in subterms(tt.t(n['c'][ix]))):
+                    N = ('var', d)
+    if B is None or N is None:
+        return False
+
+    def lin(t):
+        t = strip_cast(t)
+        if t[0] == 'var':
+            return t, 0
+        if t[0] == 'bin' and t[1] == '+':
+            a, b = strip_cast(t[2]), strip_cast(t[3])
+            if a[0] == 'var' and b[0] == 'int':
+                return a, b[1]
+            if b[0] == 'var' and a[0] == 'int':
+                return b, a[1]
+        return None, None
+    subs = [n for n in f.nodes if n['k'] == 'CXXOperatorCallExpr' and 'callee' in n and f.unit.decl(n['callee']).get('op') == '[]' and
+            tt.t(n['args'][0]) == B]
+    if not subs:
+        return False
+    for sn in subs:
+        res.sites += 1
+        base, k = lin(tt.t(sn['args'][1]))
+        best = None
+        pos = f.cfg_pos(sn['i'])
+        for (bb, ix) in (f.dominating_edges(pos[0]) if pos else []):
+            a = f.branch_atom(bb)
+            for (at, pol) in (implied(tt.t(a), ix == 0) if a is not None else []):
+                at = strip_conv_call(at)
+                if at[0] == 'bin' and at[1] == '<' and pol and strip_cast(at[3]) == N:
+                    b2, c2 = lin(at[2])
+                    if b2 is not None and b2 == base:
+                        best = c2 if best is None else max(best, c2)
+        if base is not None and best is not None and best >= k:
+            res.ok(dict(function=disp, element=f.expr_text(sn['i']), bound='%s + %d < %s' % (show(base, f.unit), best, show(N, f.unit)))
+                   if len(res.samples) < 8 else None, fn=disp)
+        elif base is not None and best is not None:
+            res.fail(Finding('F-IO.READ', disp, 'buffer element beyond the values read', f.nloc(sn['i']),
+                             '`%s` is used where only `%s + %d < %s` is known (%s = complete values delivered by the read): when the '
+                             'file ends inside a record the slot holds a value from the previous block or zero, and it becomes an '
+                             'edge instead of the record being dropped or rejected'
+                             % (f.expr_text(sn['i']), show(base, f.unit), best, show(N, f.unit), show(N, f.unit))))
+        else:
+            res.broken('F-IO.READ: %s uses `%s` of a raw read buffer without a recognisable bound by the count of values read'
+                       % (disp, f.expr_text(sn['i'])))
+    return True
+
+
 def rule_checked_read(m):
     res = RuleResult('F-IO.READ', 'a variable filled by a read primitive is used only where a branch on the truth value of '
                                   'that very read (or of the stream right after it) has been taken on its true edge')
@@ -192,6 +258,8 @@ def rule_checked_read(m):
             continue
         reads = _read_calls(f, tt, sd)
         want = 2 if _is_nolabel(f) else 3
+        if len(reads) < want and _block_reader(m, f, tt, sd, res, disp):
+            continue
         if len(reads) < want:
             res.broken('F-IO.READ: expected %d read calls per record in %s, found %d' % (want, disp, len(reads)))
             continue
@@ -1027,6 +1095,16 @@ def rule_schema_text(m):
                                                     (l[0] == 'mcall' and l[1].endswith('::front') and not l[3]))
                     if c[0] == 'bin' and c[1] == '==' and first_char and strip_cast(c[3])[0] == 'int':
                         hit = (c, l[1] if l[0] == 'idx' else l[2])
+                    elif c[0] == 'bin' and c[1] == '==' and l is not None and l[0] == 'mcall' and l[1].split('::')[-1] in ('find', 'rfind') \
+                            and strip_cast(c[3]) == ('int', 0) and l[3] and strip_cast(l[3][0])[0] == 'int':
+                        # starts-with idioms: s.find(c) == 0 and s.rfind(c, 0) == 0 are right; s.rfind(c) == 0 (search from the
+                        # end) is true only when the LAST occurrence of c is at column 0
+                        pos = strip_cast(l[3][1]) if len(l[3]) > 1 else None
+                        from_zero = pos == ('int', 0)
+                        if l[1].endswith('::rfind') and not from_zero:
+                            why = 'the comment test `%s` searches backwards from the end of the line: a comment line that contains ' \
+                                  'the comment character again is not recognised and is parsed as an edge' % show(c, f.unit)[:50]
+                        hit = (('bin', '==', l, strip_cast(l[3][0])), l[2])
                     else:
                         rest.append(c)
                 if hit is None:
